@@ -980,6 +980,18 @@ def printAlias (a : Alias) : Str :=
   | .union ts => aliasLhs a.name a.params ++ ' ' :: printMembers ts
   | t => aliasLhs a.name a.params ++ ' ' :: printTy t
 
+/-- what the broken layout of a union alias puts in front of every member -/
+def brkSep : Str := ['\n', ' ', ' ', '|', ' ']
+
+/-- the members of a union alias in the broken layout (behind `'name =`) -/
+def brokenMembers (ts : List Ty) : Str := (ts.map (brkSep ++ printMember ·)).flatten
+
+/-- the broken layout of a union alias, one member per line (without the final newline):
+    `'name<'a> =⏎  | m1⏎  | m2 …`. `Theorems/C18Types.lean: alias_statement_layouts`: `fmtAlias` is
+    `printAlias` or this. -/
+def brokenAlias (name : Option Str) (ps : List Str) (ts : List Ty) : Str :=
+  aliasLhs name ps ++ brokenMembers ts
+
 /-- the parts of `union_alias_doc`: per member a `line`, `leading_bar(index == 0)`, the member text -/
 def unionAliasParts (first : Bool) : List Ty → List Doc
   | [] => []
